@@ -15,6 +15,9 @@ impl Identifier for &'static str {}
 /// The maximum alignment of structure members is 8 bytes.
 pub const MAXIMUM_ALIGNMENT: usize = 8;
 
+/// The length of an array type is stored in 32 bits during IR generation.
+pub const MAXIMUM_ARRAY_LENGTH: usize = u32::MAX as usize;
+
 #[must_use]
 #[derive(Debug, Clone, PartialEq)]
 pub enum ValueType<I>
@@ -613,8 +616,12 @@ where
 			ValueType::Void => true,
 			ValueType::Array {
 				element_type,
-				length: _,
-			} => element_type.is_wellformed_element(),
+				length,
+			} =>
+			{
+				*length <= MAXIMUM_ARRAY_LENGTH
+					&& element_type.is_wellformed_element()
+			}
 			ValueType::ArrayWithNamedLength {
 				element_type,
 				named_length: _,
@@ -656,8 +663,12 @@ where
 			ValueType::Void => false,
 			ValueType::Array {
 				element_type,
-				length: _,
-			} => element_type.is_wellformed_element(),
+				length,
+			} =>
+			{
+				*length <= MAXIMUM_ARRAY_LENGTH
+					&& element_type.is_wellformed_element()
+			}
 			ValueType::ArrayWithNamedLength {
 				element_type,
 				named_length: _,
